@@ -2,7 +2,7 @@
 
 For every property the AST hash (comments, formatting and line numbers do not count) of each source file its
 anchors name is recorded in harness/fingerprints.json when the check last agreed with the code
-(`python3 tools/fingerprint.py`).  A changed hash is NOT a verdict - a harmless rewrite changes it too - it
+(`/venv/bin/python tools/fingerprint.py` - the interpreter the checks run under: `ast.dump` differs between Python versions).  A changed hash is NOT a verdict - a harmless rewrite changes it too - it
 tells the run where the code moved: the correspondence of that property is then run with the thorough
 generators even in the quick tier, and the change is recorded in the evidence."""
 import ast
